@@ -831,7 +831,7 @@ def scan_line(n, fields):
 
 
 def gen_g_array(rng, nmax):
-    kind = rng.choice(['psd', 'psd', 'grid', 'random', 'dup', 'scalar', 'high'])
+    kind = rng.choice(['psd', 'psd', 'grid', 'random', 'dup', 'scalar', 'high', 'neg-grid', 'all-neg', 'sign-change', 'psd-negE'])
     n = 1 if kind == 'scalar' else rng.randint(2, nmax)
     if kind == 'psd':
         gam = 10 ** rng.uniform(-1.3, -0.3); Vm = 1e-5
@@ -846,8 +846,20 @@ def gen_g_array(rng, nmax):
         g = np.array([rng.choice(base) for _ in range(n)])
     elif kind == 'high':
         g = np.array([rng.uniform(15000, 60000) for _ in range(n)])
+    elif kind == 'neg-grid':
+        # negative Gibbs-Thomson energies: a negative strain energy (precipitate relaxing a pre-strained matrix) outweighs
+        # the capillarity term for the large classes
+        g = np.linspace(-rng.uniform(500, 3000), rng.uniform(500, 9000), n)
+    elif kind == 'all-neg':
+        g = np.array([-rng.uniform(0, 1) ** 2 * 3000 for _ in range(n)])
+    elif kind == 'sign-change':
+        g = np.array([rng.uniform(-3000, 9000) if rng.random() < 0.7 else rng.choice([0.0, -1.0, 1.0, -0.5, -2.0]) for _ in range(n)])
+    elif kind == 'psd-negE':
+        gam = 10 ** rng.uniform(-1.3, -0.3); Vm = 1e-5
+        R = np.linspace(10 ** rng.uniform(-10.2, -9.5), 10 ** rng.uniform(-8.3, -7.5), n)
+        g = Vm * (-10 ** rng.uniform(6.8, 8.0) + 2 * gam / R)
     else:
-        g = np.array([rng.choice([0.0, rng.uniform(0, 15000), 50000.0])])
+        g = np.array([rng.choice([0.0, rng.uniform(0, 15000), 50000.0, -rng.uniform(0, 3000)])])
     return kind, g.astype(float)
 
 
@@ -941,15 +953,16 @@ def part_scan(ctx, res):
             if len(st) and not np.all(xs[st[0]:] == -1):
                 bad = [i for i in range(st[0], len(xs)) if xs[i] != -1]
                 if not all(gs[i] == gs[st[0]] for i in bad):
-                    res.violate('sentinel-not-monotone-in-g', 'precipitate reported unstable at some g but stable at a larger g', desc, [gs.tolist(), xs.tolist()])
+                    res.violate('sentinel-not-monotone-in-g' + (':negative-g' if gs[st[0]] < 0 else ''), 'precipitate reported unstable at some g but stable at a larger g', desc, [gs.tolist(), xs.tolist()])
             ok = xs != -1
             gv, xv = gs[ok], xs[ok]
             for i in range(len(gv) - 1):
-                if gv[i + 1] > gv[i] * (1 + 1e-9) + 1e-6 and not xv[i + 1] > xv[i]:
-                    res.violate('xalpha-not-increasing-in-g', 'interfacial matrix composition does not rise with the Gibbs-Thomson energy', dict(desc, g_pair=[gv[i], gv[i + 1]]), [xv[i], xv[i + 1]]); break
+                if gv[i + 1] > gv[i] + 1e-9 * abs(gv[i]) + 1e-6 and not xv[i + 1] > xv[i]:
+                    res.violate('xalpha-not-increasing-in-g' + (':negative-g' if gv[i] < 0 else ''), 'interfacial matrix composition does not rise with the Gibbs-Thomson energy', dict(desc, g_pair=[gv[i], gv[i + 1]]), [xv[i], xv[i + 1]]); break
                 if gv[i + 1] == gv[i] and xv[i + 1] != xv[i]:
                     res.violate('xalpha-differs-for-equal-g', 'two entries with the same g have different compositions', desc, [xv[i], xv[i + 1]]); break
             res.count('scan:real-sentinels', int(np.sum(xa == -1)))
+            res.count('scan:real-negative-g-entries', int(np.sum(g < 0)))
     part_lookup(ctx, res)
 
 
@@ -971,9 +984,14 @@ def part_lookup(ctx, res):
             for i in range(n):
                 if ctx.rng.random() < 0.4:
                     xa[i] = -1; xb[i] = -1
-        with warnings.catch_warnings():
-            warnings.simplefilter('ignore')
-            m = KE.PrecipitateModel(phases=['P'], elements=['B'])
+        if 'lookup-template' not in _MODELS:
+            # constructing a PrecipitateModel costs ~25 ms (Lebedev tables of the strain energy): one pristine template, a deep
+            # copy per case (every case still works on its own object)
+            with warnings.catch_warnings():
+                warnings.simplefilter('ignore')
+                _MODELS['lookup-template'] = KE.PrecipitateModel(phases=['P'], elements=['B'])
+        import copy
+        m = copy.deepcopy(_MODELS['lookup-template'])
         m.PBM[0] = PopulationBalanceModel(1e-10, 1e-8, n - 1)
         p = m.precipitateParameters[0]
         p.gamma = 0.1; p.volume.Vm = 1e-5
@@ -1026,41 +1044,61 @@ def df(th, method, x, T):
     return None if d is None or np.ndim(d) > 0 and d.dtype == object else float(d)
 
 
-def part_thermo(ctx, res, th, system, prec, Ts, stoich=True, sfx='', xmax=0.1, gmax_range=(9000, 16000)):
+def part_thermo(ctx, res, th, system, prec, Ts, stoich=True, sfx='', xmax=0.1, gmax_range=(9000, 16000), gneg_max=3000.0, g_given=None):
     """sfx: appended to the violation keys of a second description of the same system (names the class: database / site
-    ratios); the recorded finding about the curvature method keeps its key (same class for every database)"""
+    ratios); the recorded finding about the curvature method keeps its key (same class for every database).
+    The g grid spans NEGATIVE to positive Gibbs-Thomson energies (negative strain energy: the precipitate relaxes a
+    pre-strained matrix); keys of failures at a negative g carry the suffix ':negative-g'."""
     vlib.use_repo()
     tol_off = OFFSET + 1e-3          # the documented offset plus the resolution of the sampling method
+    ordered = bool(getattr(th, 'orderedPhase', {}).get(prec, False))
+    goff = float(getattr(th, 'gOffset', OFFSET))
     for T in Ts:
         gmax = ctx.rng.uniform(*gmax_range)
-        g = np.concatenate(([0.0], np.sort([ctx.rng.uniform(0, 1) ** 2 * gmax for _ in range(ctx.n(6, 12))])))
+        gpos = np.sort([ctx.rng.uniform(0, 1) ** 2 * gmax for _ in range(ctx.n(6, 12))])
+        gneg = np.sort([-ctx.rng.uniform(0, 1) ** 1.5 * gneg_max for _ in range(ctx.n(3, 8))] + [ctx.rng.choice([-0.5, -1.0, -2.0, -10.0, -gneg_max])])
+        g = np.concatenate((gneg, [0.0], gpos)) if g_given is None else np.array(sorted(set([float(v) for v in g_given] + [0.0])))
+        i0 = int(np.nonzero(g == 0.0)[0][0])
         xa, xb = th.getInterfacialComposition(T, g.copy(), precPhase=prec)
         xa = np.atleast_1d(xa).astype(float)
-        desc0 = dict(system=system, T=T)
-        if xa[0] == -1:
+        desc0 = dict(system=system, T=T, g_grid=g.tolist())
+        if xa[i0] == -1:
             res.count('thermo:no-solvus'); continue
-        xeq = xa[0]
+        xeq = xa[i0]
+        # ---- recorded finding (known_findings: sentinel-at-negative-g:order-disorder-precipitate): the precipitate is an ordered
+        # variant of the matrix phase (its model contains the disordered state), g + offset < 0 and the answer is the sentinel
+        # although the precipitate is stable at g = 0; exactly this class gets its own key and is left out of the generic
+        # sentinel-monotonicity oracle below
+        known_cls = np.array([ordered and gi + goff < 0 and xi == -1 for gi, xi in zip(g, xa)])
+        if known_cls.any():
+            k = int(np.nonzero(known_cls)[0][-1])
+            res.count('thermo:sentinel-at-negative-g(order-disorder)', int(known_cls.sum()))
+            res.violate('sentinel-at-negative-g:order-disorder-precipitate',
+                        'ordered precipitate of the matrix phase: reported unstable (sentinel) for a negative Gibbs-Thomson energy although it is stable at g = 0',
+                        dict(desc0, g=float(g[k]), g_plus_offset=float(g[k] + goff), xalpha_at_g0=float(xeq), n_entries=int(known_cls.sum())), float(xa[k]), 'a composition below x_alpha(0)')
         # ---- x_alpha(g) is where the driving force equals g (offset 1 J/mol); increasing in g; sentinel monotone
         prevx = None
         for gi, xi in zip(g, xa):
             if xi == -1:
                 continue
-            if prevx is not None and not xi > prevx[1] and gi > prevx[0] * (1 + 1e-9) + 1e-6:
-                res.violate('xalpha-not-increasing-in-g' + sfx, 'interfacial matrix composition does not rise with g', dict(desc0, g_pair=[prevx[0], gi]), [prevx[1], xi])
+            ng = ':negative-g' if gi < 0 else ''
+            if prevx is not None and not xi > prevx[1] and gi > prevx[0] + 1e-9 * abs(prevx[0]) + 1e-6:
+                res.violate('xalpha-not-increasing-in-g' + sfx + (':negative-g' if prevx[0] < 0 else ''), 'interfacial matrix composition does not rise with g', dict(desc0, g_pair=[prevx[0], gi]), [prevx[1], xi])
             prevx = (gi, xi)
             # for a precipitate with a composition range only the parallel-tangent method is exact: sampling is limited by
             # its resolution (Cu4Ti: up to -12 J/mol) and 'approximate' assumes the equilibrium precipitate composition
             for mth in (['tangent', 'sampling', 'approximate'] if stoich else ['tangent']):
                 d = df(th, mth, xi, T)
-                res.case(('thermo', system, round(T, 3), round(gi, 6), mth), gi > 0)
-                res.count('thermo:DF(xalpha(g))=g:' + mth)
+                res.case(('thermo', system, round(T, 3), round(gi, 6), mth), gi != 0)
+                res.count('thermo:DF(xalpha(g))=g:' + mth + (':g<0' if gi < 0 else ''))
                 tol = tol_off + 1e-6 * abs(gi)
                 if d is None or abs(d - gi) > tol:
-                    res.violate('df-at-xalpha-differs-from-g:' + mth + sfx, 'driving force at the interfacial matrix composition returned for g is not g within the 1 J/mol offset',
+                    res.violate('df-at-xalpha-differs-from-g:' + mth + sfx + ng, 'driving force at the interfacial matrix composition returned for g is not g within the 1 J/mol offset',
                                 dict(desc0, g=gi, xalpha=xi, method=mth), d, '%g +- %g' % (gi, tol))
-        st = np.nonzero(xa == -1)[0]
-        if len(st) and not np.all(xa[st[0]:] == -1):
-            res.violate('sentinel-not-monotone-in-g' + sfx, 'unstable at some g but stable at a larger g', dict(desc0, g=g.tolist()), xa.tolist())
+        xg = xa[~known_cls]
+        st = np.nonzero(xg == -1)[0]
+        if len(st) and not np.all(xg[st[0]:] == -1):
+            res.violate('sentinel-not-monotone-in-g' + sfx + (':negative-g' if g[~known_cls][st[0]] < 0 else ''), 'unstable at some g but stable at a larger g', dict(desc0, g=g.tolist()), xa.tolist())
         # ---- sign change at the planar solvus, monotone in supersaturation, agreement of the methods
         rels = sorted(set([0.3, 0.8, 0.95, 1.05, 1.3, 3.0, 10.0] + [10 ** ctx.rng.uniform(-0.7, 1.3) for _ in range(ctx.n(3, 8))] + [1.004, 1.015]))
         xs = [xeq * r for r in rels if xeq * r < xmax]
@@ -1330,8 +1368,8 @@ def gen_T_form(rng, lo, hi, nmax):
 
 def gen_g_form(rng, n, gmax, allow_mismatch=True):
     """gExtra argument for n temperatures: scalar, length-1 array, array of n, (rarely) an array of another length"""
-    kind = rng.choice(['scalar', 'len1', 'array', 'array', 'array', 'zeros', 'const'] + (['mismatch'] if allow_mismatch and n >= 2 else []))
-    if n == 1 and kind in ('array', 'zeros', 'const'):
+    kind = rng.choice(['scalar', 'len1', 'array', 'array', 'array', 'zeros', 'const', 'span-negative', 'all-negative'] + (['mismatch'] if allow_mismatch and n >= 2 else []))
+    if n == 1 and kind in ('array', 'zeros', 'const', 'span-negative', 'all-negative'):
         m = rng.randint(1, 5)
     elif kind == 'mismatch':
         m = rng.choice([k for k in range(2, n + 3) if k != n])
@@ -1340,9 +1378,16 @@ def gen_g_form(rng, n, gmax, allow_mismatch=True):
     if kind == 'zeros':
         g = [0.0] * m
     elif kind == 'const':
-        g = [rng.uniform(0, gmax)] * m
+        g = [rng.choice([rng.uniform(0, gmax), -rng.uniform(0, 3000)])] * m
+    elif kind == 'span-negative':
+        # negative to positive Gibbs-Thomson energies (negative strain energy), in either direction
+        g = np.linspace(-rng.uniform(200, 3000), rng.uniform(200, min(gmax, 9000)), m).tolist()
+        if rng.random() < 0.5:
+            g.reverse()
+    elif kind == 'all-negative':
+        g = [-rng.uniform(0, 1) ** 2 * 3000 for _ in range(m)]
     else:
-        g = [rng.choice([0.0, rng.uniform(0, gmax), rng.uniform(0, 1) ** 2 * gmax]) for _ in range(m)]
+        g = [rng.choice([0.0, rng.uniform(0, gmax), rng.uniform(0, 1) ** 2 * gmax, -rng.uniform(0, 3000)]) for _ in range(m)]
     arg = float(g[0]) if kind == 'scalar' else (np.array(g, dtype=float) if rng.random() < 0.8 else list(g))
     return kind, arg, [float(v) for v in g]
 
@@ -1483,20 +1528,30 @@ def part_batch_real(ctx, res, system, N, cases=None):
         for T, g in zip(Tb, gb):
             a, b = th.getInterfacialComposition(float(T), float(g), precPhase=prec)
             sa.append(float(a)); sb.append(float(b))
+        if any(v < 0 for v in gb):
+            res.count('batch:with-negative-g')
         for i in range(n):
             d = dict(desc, index=i, T_i=Tb[i], g_i=gb[i])
+            ng = ':negative-g' if gb[i] < 0 else ''
+            if xa[i] == -1 and gb[i] < 0 and sa[i] == -1:
+                # a stoichiometric / non-ordered precipitate cannot become unstable by LOWERING its energy
+                x0_, _ = th.getInterfacialComposition(float(Tb[i]), 0.0, precPhase=prec)
+                if float(x0_) != -1 and getattr(th, 'orderedPhase', {}).get(prec, False) and gb[i] + OFFSET < 0:
+                    res.violate('sentinel-at-negative-g:order-disorder-precipitate', 'ordered precipitate of the matrix phase: reported unstable (sentinel) for a negative Gibbs-Thomson energy although it is stable at g = 0', d, [xa[i], xb[i]], 'a composition')
+                elif float(x0_) != -1:
+                    res.violate('ic-array-form:sentinel-at-negative-g-but-stable-at-zero:' + cls + sfx, 'precipitate reported unstable for a negative Gibbs-Thomson energy but stable at g = 0 at the same temperature', d, [xa[i], xb[i]], 'a composition')
             if (xa[i] == -1) != (sa[i] == -1) or (xb[i] == -1) != (sb[i] == -1):
-                res.violate('ic-array-form:sentinel-differs-from-scalar-call:' + cls + sfx, 'array answer and scalar answer for the same (T_i, g_i) disagree on whether the precipitate is stable', d, [xa[i], xb[i]], [sa[i], sb[i]])
+                res.violate('ic-array-form:sentinel-differs-from-scalar-call:' + cls + sfx + ng, 'array answer and scalar answer for the same (T_i, g_i) disagree on whether the precipitate is stable', d, [xa[i], xb[i]], [sa[i], sb[i]])
                 continue
             if xa[i] == -1:
                 res.count('batch:sentinel'); continue
             if not (close(xa[i], sa[i], 1e-9) and close(xb[i], sb[i], 1e-9)):
-                res.violate('ic-array-form:differs-from-scalar-call:' + cls + sfx, 'entry of the array answer differs from the scalar query at the same (T_i, g_i)', d, [xa[i], xb[i]], [sa[i], sb[i]])
+                res.violate('ic-array-form:differs-from-scalar-call:' + cls + sfx + ng, 'entry of the array answer differs from the scalar query at the same (T_i, g_i)', d, [xa[i], xb[i]], [sa[i], sb[i]])
             res.count('batch:entry-bit-identical' if xa[i] == sa[i] else 'batch:entry-close')
             dv = df(th, 'tangent', xa[i], Tb[i])
             tol = tol_off + 1e-6 * abs(gb[i])
             if dv is None or abs(dv - gb[i]) > tol:
-                res.violate('ic-array-form:df-at-xalpha-differs-from-g:' + cls + sfx,
+                res.violate('ic-array-form:df-at-xalpha-differs-from-g:' + cls + sfx + ng,
                             'driving force at entry i of the array answer, at temperature T_i, is not g_i within the 1 J/mol offset', d, dv, '%g +- %g' % (gb[i], tol))
         # the (array x, array T) form of the driving-force query on the returned compositions
         ok = [i for i in range(n) if xa[i] != -1]
@@ -1511,8 +1566,554 @@ def part_batch_real(ctx, res, system, N, cases=None):
                 for j, i in enumerate(ok):
                     tol = tol_off + 1e-6 * abs(gb[i])
                     if abs(float(dd[j]) - gb[i]) > tol:
-                        res.violate('df-array-form:df-at-xalpha-differs-from-g:' + cls + sfx, 'entry of getDrivingForce(array x, array T) at (x_alpha_i, T_i) is not g_i within the offset',
+                        res.violate('df-array-form:df-at-xalpha-differs-from-g:' + cls + sfx + (':negative-g' if gb[i] < 0 else ''), 'entry of getDrivingForce(array x, array T) at (x_alpha_i, T_i) is not g_i within the offset',
                                     dict(desc, index=i, T_i=Tb[i], g_i=gb[i], xalpha_i=xa[i]), float(dd[j]), '%g +- %g' % (gb[i], tol))
+
+
+# =====================================================================================================
+# part 3d: MULTICOMPONENT - four methods, both sides of the phase boundary, BOTH orders of listing the solutes
+# =====================================================================================================
+MULTI_SYSTEMS = {
+    # name: (database attribute of kawin.tests.datasets, solvent, solutes (alphabetical), phases, T range,
+    #        under-saturated ranges, super-saturated ranges, mixed ranges) - contents per solute, deliberately UNEQUAL
+    'Ni-Cr-Al': dict(db='NICRAL_TDB', solvent='NI', solutes=['AL', 'CR'], phases=['FCC_A1', 'FCC_L12'], T=(1023.0, 1123.0),
+                     under=dict(AL=(0.01, 0.06), CR=(0.10, 0.25)), super=dict(AL=(0.14, 0.20), CR=(0.02, 0.08)), mixed=dict(AL=(0.07, 0.12), CR=(0.03, 0.15))),
+    'Al-Mg-Si': dict(db='ALMGSI_DB', solvent='AL', solutes=['MG', 'SI'], phases=['FCC_A1', 'MGSI_B_P'], T=(450.0, 550.0),
+                     under=dict(MG=(2e-5, 1e-4), SI=(2e-4, 6e-4)), super=dict(MG=(0.004, 0.008), SI=(0.009, 0.015)), mixed=dict(MG=(0.0005, 0.003), SI=(0.004, 0.008))),
+}
+
+
+def order_class(listing):
+    """'solutes-alphabetical' / 'solutes-not-alphabetical' for an element listing [solvent, solute, ...]"""
+    sol = list(listing[1:])
+    return 'solutes-alphabetical' if sol == sorted(sol) else 'solutes-not-alphabetical'
+
+
+def therm_multi(system, listing):
+    key = ('multi', system, tuple(listing))
+    if key not in _MODELS:
+        import kwnruns
+        if system == 'Ni-Cr-Al' and list(listing) == ['NI', 'AL', 'CR']:
+            _MODELS[key] = kwnruns.therm_ternary()
+        else:
+            vlib.use_repo()
+            from kawin.tests import datasets
+            from kawin.thermo import MulticomponentThermodynamics
+            with warnings.catch_warnings():
+                warnings.simplefilter('ignore')
+                th = MulticomponentThermodynamics(getattr(datasets, MULTI_SYSTEMS[system]['db']), list(listing), list(MULTI_SYSTEMS[system]['phases']), drivingForceMethod='tangent')
+                th.setDFSamplingDensity(2000); th.setEQSamplingDensity(500)
+            _MODELS[key] = th
+    return _MODELS[key]
+
+
+def _stable_phases(th, x, T, prec):
+    with warnings.catch_warnings():
+        warnings.simplefilter('ignore')
+        wks = th.getEq(x, T, 0, prec)
+        return {cs.phase_record.phase_name: float(cs.NP) for cs in wks.get_composition_sets()}
+
+
+def multi_point(ctx, res, system, T, comp, listings=None):
+    """one alloy (dict solute -> content) at T in every listing of the solutes: stable phases of an equilibrium at the point,
+    the four driving-force methods (fresh cache each), agreement between the listings"""
+    cfg = MULTI_SYSTEMS[system]
+    prec = cfg['phases'][1]
+    sol = cfg['solutes']
+    listings = listings or [[cfg['solvent']] + sol, [cfg['solvent']] + sol[::-1]]
+    desc0 = dict(multi=True, system=system, T=T, composition={e: float(comp[e]) for e in sol})
+    out = {}
+    for L in listings:
+        th = therm_multi(system, L)
+        x = [comp[e] for e in L[1:]]
+        ph = _stable_phases(th, x, T, prec)
+        rec = dict(listing=L, x=x, stable=ph, dg={}, xbeta={})
+        try:
+            th.clearCache()
+            for mth in METHODS:
+                th.setDrivingForceMethod(mth)              # removeCache=True below: every call starts without cached composition sets
+                with warnings.catch_warnings():
+                    warnings.simplefilter('ignore')
+                    d, xb = th.getDrivingForce(x, T, precPhase=prec, removeCache=True)
+                rec['dg'][mth] = None if d is None or (np.ndim(d) == 0 and d.dtype == object) else float(d)
+                xb = np.atleast_1d(xb)
+                rec['xbeta'][mth] = None if xb.dtype == object or len(xb) != len(x) else {e: float(v) for e, v in zip(L[1:], xb)}
+        finally:
+            th.setDrivingForceMethod('tangent')
+            th.clearCache()
+        out[tuple(L)] = rec
+    first = out[tuple(listings[0])]
+    two = prec in first['stable'] and len(first['stable']) == 2
+    # side of the phase boundary and distance from it, from equilibria only: super-saturated and away = matrix + precipitate here
+    # AND with every solute content lowered by 20 %; under-saturated and away = matrix alone here AND with every solute content
+    # raised by 25 %
+    if two:
+        side = 'supersaturated'
+        ph2 = _stable_phases(therm_multi(system, listings[0]), [0.8 * v for v in first['x']], T, prec)
+        away = prec in ph2 and len(ph2) == 2
+    elif len(first['stable']) == 1:
+        side = 'undersaturated'
+        ph2 = _stable_phases(therm_multi(system, listings[0]), [1.25 * v for v in first['x']], T, prec)
+        away = len(ph2) == 1 and prec not in ph2
+    else:
+        side, away = 'other-phases', False
+    res.case(('multi', system, round(T, 3), tuple(round(comp[e], 9) for e in sol)), away)
+    res.count('multi:%s:%s%s' % (system, side, '' if away else ':near-boundary'))
+    if len(res.samples) < 4 and away and side == 'undersaturated':
+        res.sample(dict(desc0, side=side, dg=first['dg']))
+    for L in listings:
+        rec = out[tuple(L)]
+        oc = order_class(L)
+        desc = dict(desc0, listing=L, x=rec['x'], stable_phases=rec['stable'], side=side)
+        if set(rec['stable']) != set(first['stable']):
+            res.violate('equilibrium-differs-between-solute-orders', 'the stable phases of the same alloy differ between two listings of the solutes', desc, rec['stable'], first['stable'])
+        for mth in METHODS:
+            d = rec['dg'][mth]
+            res.count('multi:DF:%s:%s' % (mth, oc))
+            if d is None:
+                res.violate('df-none:%s:%s' % (mth, oc), 'driving-force method returned None', dict(desc, method=mth), None, 'a number'); continue
+            if away:
+                want = 1 if side == 'supersaturated' else -1
+                if ((d > 0) - (d < 0)) != want:
+                    res.violate('df-sign:%s:%s:%s' % (mth, oc, side),
+                                'driving force of an alloy away from the phase boundary does not have the sign given by the stable phases of an equilibrium at that point (and by the other methods)',
+                                dict(desc, method=mth, all_methods=rec['dg']), d, 'sign %+d' % want)
+            else:
+                res.near_tie_skipped += 1
+    # the same alloy listed in two orders: same value for each method (pycalphad works in alphabetical order either way)
+    for L in listings[1:]:
+        rec = out[tuple(L)]
+        for mth in METHODS:
+            a, b = first['dg'][mth], rec['dg'][mth]
+            if a is None or b is None:
+                continue
+            if not close(a, b, 1e-6, 1e-9):
+                res.violate('df-differs-between-solute-orders:' + mth, 'the driving force of the same alloy differs between two listings of the solutes',
+                            dict(desc0, listings=[listings[0], L], x=[first['x'], rec['x']], method=mth, side=side), b, a)
+            xa_, xb_ = first['xbeta'][mth], rec['xbeta'][mth]
+            if xa_ is not None and xb_ is not None and not all(close(xa_[e], xb_[e], 1e-6, 1e-9) for e in sol):
+                res.violate('df-precipitate-composition-differs-between-solute-orders:' + mth, 'the precipitate composition returned with the driving force, read in the order of the listing, differs between two listings of the same alloy',
+                            dict(desc0, listings=[listings[0], L], method=mth, side=side), xb_, xa_)
+
+
+def part_multi_orders(ctx, res, system, n_under, n_super, n_mixed):
+    cfg = MULTI_SYSTEMS[system]
+    r = ctx.rng
+    for kind, n in (('under', n_under), ('super', n_super), ('mixed', n_mixed)):
+        for _ in range(n):
+            comp = {e: r.uniform(*cfg[kind][e]) for e in cfg['solutes']}
+            multi_point(ctx, res, system, r.uniform(*cfg['T']), comp)
+
+
+ELEMENT_POOL = ['NI', 'CR', 'AL', 'CO', 'FE', 'TI', 'MO', 'W', 'NB', 'TA', 'MG', 'SI', 'ZN', 'CU', 'MN', 'ZR', 'SC', 'V', 'C']
+
+
+def df_order_case(TH, listing, x, two):
+    """the REAL GeneralThermodynamics._getDrivingForceCurvature on a stand-in `self` with the given element listing: which
+    composition the sampling fallback receives (two = False: no two-phase equilibrium) / which composition the curvature
+    formula uses (two = True; dMudX replaced by the identity and x_matrix = 0, x_precip - x_matrix = unit vectors, so the j-th
+    call returns entry j of the composition the formula works with) and the returned precipitate composition"""
+    NS = types.SimpleNamespace
+    n = len(x)
+    alpha = sorted(listing)                        # pycalphad: components in alphabetical order
+    got = dict(fallback=None, formula=None, xbeta=None)
+    seen = []
+
+    def sampling(x_, T, precPhase, removeCache=False, local_phase_sampling_conditions=None):
+        seen.append(np.array(x_, dtype=float).tolist())
+        return 'DG', 'XB'
+    xP_alpha = [0.05 + 0.01 * k for k in range(n + 1)]          # precipitate composition, alphabetical order incl. solvent
+    for j in range(n if two else 1):
+        xM = np.zeros(n + 1)
+        xPj = np.zeros(n + 1)
+        ref = alpha.index(listing[0])
+        idx_nonref = [k for k in range(n + 1) if k != ref]
+        xPj[idx_nonref[j]] = 1.0
+        cs_m = NS(phase_record=NS(nonvacant_elements=list(alpha)), X=xM)
+        cs_p = NS(phase_record=NS(nonvacant_elements=list(alpha)), X=xPj if two else np.array(xP_alpha))
+        self_ = NS(elements=list(listing) + ['VA'], _getCompositionSetsForDF=lambda x_, T, prec: (np.zeros(n + 1), cs_m, cs_p) if two else None,
+                   _getDrivingForceSampling=sampling, _resetDrivingForceCache=lambda *a, **k: None)
+        saved = TH.dMudX
+        TH.dMudX = lambda mu, cs, refel: np.eye(n)
+        try:
+            r = TH.GeneralThermodynamics._getDrivingForceCurvature(self_, np.array(x, dtype=float), 1000.0, 'P', removeCache=True)
+        finally:
+            TH.dMudX = saved
+        if two:
+            got['formula'] = (got['formula'] or []) + [float(np.squeeze(r[0]))]
+        else:
+            got['fallback'] = seen[-1] if seen else None
+            got['returned'] = r
+    return got
+
+
+def part_df_order(ctx, res, N, use_driver=True, cases=None):
+    """order of the solutes inside the curvature method (kawin's own bookkeeping, no pycalphad): model KawinV.IC.dfCurvature vs
+    the real method on a stand-in object + direct oracle: the fallback gets the composition in the USER's order, the formula
+    works on the alphabetical order"""
+    vlib.use_repo()
+    with warnings.catch_warnings():
+        warnings.simplefilter('ignore')
+        from kawin.thermo import Thermodynamics as TH
+    r = ctx.rng
+    if cases is None:
+        cases = []
+        for _ in range(N):
+            n = r.choice([2, 2, 2, 3, 3, 4])
+            els = r.sample(ELEMENT_POOL, n + 1)
+            if r.random() < 0.25:
+                els = [els[0]] + sorted(els[1:])
+            elif r.random() < 0.25:
+                els = [els[0]] + sorted(els[1:], reverse=True)
+            x = [r.uniform(0.005, 0.3 / n) for _ in range(n)]
+            cases.append((els, x, r.random() < 0.5))
+    items = []
+    for els, x, two in cases:
+        try:
+            got = df_order_case(TH, els, x, two)
+            err = None
+        except Exception as e:
+            got, err = None, '%s: %s' % (type(e).__name__, str(e)[:120])
+        items.append((els, x, two, got, err))
+    lines = []
+    for els, x, two, got, err in items:
+        sidx = sorted(range(len(x)), key=lambda i: els[1 + i])         # np.argsort of the solute symbols, computed independently
+        lines.append('df.order %s %s %s' % ('T' if two else 'F', '%d %s' % (len(sidx), ' '.join(str(i) for i in sidx)), enc_list(x)))
+    model = vlib.run_driver(PROP, lines) if (use_driver and ctx.driver_ok and lines) else None
+    for k, (els, x, two, got, err) in enumerate(items):
+        oc = order_class(els)
+        desc = dict(df_order=True, elements=els, x=x, two_phase=two)
+        res.case(('df-order', tuple(els), tuple(x), two), oc == 'solutes-not-alphabetical')
+        res.count('df-order:%s:%s' % ('formula' if two else 'fallback', oc))
+        if err is not None:
+            res.violate('df-curvature-raised:' + oc, '_getDrivingForceCurvature raised on a stand-in object', desc, err, 'an answer'); continue
+        impl = got['formula'] if two else got['fallback']
+        if model is not None:
+            t = Toks(model[k])
+            tag = t.tok() if t.ok else None
+            mv = t.flts() if t.ok else None
+            if not t.ok or tag != ('C' if two else 'F') or mv != impl:
+                res.disagree('model dfCurvature vs the composition _getDrivingForceCurvature hands to the %s' % ('curvature formula' if two else 'sampling fallback'), desc, impl, [tag, mv])
+        # ---- direct oracle, independent of the model
+        alpha_sol = sorted(els[1:])
+        want = [x[els[1:].index(e)] for e in alpha_sol] if two else list(x)
+        if impl != want:
+            res.violate(('df-curvature-formula-composition-not-alphabetical:' if two else 'df-curvature-fallback-composition-reordered:') + oc,
+                        'curvature driving-force method: ' + ('the formula does not work on the composition in alphabetical order of the solutes' if two else
+                                                              'the sampling fallback (no two-phase equilibrium: under-saturated alloy) is not handed the composition in the order of the element listing'),
+                        desc, impl, want)
+        if not two and got.get('returned') != ('DG', 'XB'):
+            res.violate('df-curvature-fallback-result-not-returned:' + oc, 'the answer of the sampling fallback is not returned unchanged', desc, repr(got.get('returned'))[:100], "('DG', 'XB')")
+
+
+# =====================================================================================================
+# part 3e: PARAMETER HISTORIES of the nucleation barrier (cached Clemm-Fisher factors)
+# =====================================================================================================
+FAC_TOK = {'area': 'A', 'vol': 'V', 'rem': 'R', 'arem': 'M', 'k': 'K'}
+DESC_FN = {'area': 'areaFactor', 'vol': 'volumeFactor', 'rem': 'gbRemoval', 'arem': 'areaRemoval'}
+
+
+def _site_descriptions():
+    NU = _nucleation_module()
+    return [NU.BulkDescription(), NU.DislocationDescription(), NU.GrainBoundaryDescription(), NU.GrainEdgeDescription(), NU.GrainCornerDescription()]
+
+
+def gen_history(rng, kind):
+    """a random history on ONE parameter object: setters (gamma, gbEnergy, site type, shape) interleaved with evaluations of
+    the cached factors, of Rcrit / Gcrit, of nucleationBarrier and of computeSteadyStateNucleation.
+    kind 'bare' = a NucleationBarrierParameters object, 'prec' = a PrecipitateParameters object (setters through it)"""
+    gamma = 10 ** rng.uniform(-1.3, -0.3)
+    site = rng.choice([2, 2, 3, 4, 0, 1])
+    lim = [9.0, 9.0, 1.0, math.sqrt(3) / 2, math.sqrt(2 / 3)]
+
+    def gb_for(gam, st):
+        # mostly a valid ratio for the site, sometimes beyond the limit (ValueError branch), sometimes 0
+        u = rng.random()
+        k = rng.uniform(0.02, 0.97) * min(lim[st], 1.2) if u < 0.85 else rng.uniform(1.0, 1.5) * min(lim[st], 1.0) if u < 0.93 else 0.0
+        return 2 * gam * k
+    gb = gb_for(gamma, site)
+    ops = []
+    cur = dict(gamma=gamma, gb=gb, site=site)
+    evals = ['get:k', 'get:area', 'get:vol', 'get:rem', 'get:arem', 'rcrit', 'gcrit'] + (['barrier', 'steady', 'barrier', 'steady'] if kind == 'prec' else [])
+    setters = ['gbEnergy', 'gbEnergy', 'gbEnergy', 'gamma', 'site'] + (['shape'] if kind == 'prec' else [])
+    for _ in range(rng.randint(3, 14)):
+        if rng.random() < 0.45:
+            st = rng.choice(setters)
+            if st == 'gbEnergy':
+                cur['gb'] = gb_for(cur['gamma'], cur['site']); ops.append(('gbEnergy', cur['gb']))
+            elif st == 'gamma':
+                cur['gamma'] = cur['gamma'] * rng.uniform(0.6, 1.6); ops.append(('gamma', cur['gamma']))
+            elif st == 'site':
+                cur['site'] = rng.choice([2, 2, 3, 4, 0, 1]); ops.append(('site', cur['site']))
+            else:
+                ops.append(('shape', 'sphere'))
+        else:
+            ev = rng.choice(evals)
+            ops.append((ev, 10 ** rng.uniform(7, 9.5)) if ev in ('rcrit', 'gcrit', 'barrier', 'steady') else (ev,))
+    return dict(kind=kind, gamma=gamma, gb=gb, site=site, ops=ops)
+
+
+class _HistoryObject:
+    """one REAL parameter object and the operations of a history on it"""
+    def __init__(self, kind, gamma, gb, site):
+        NR, PP, KE, SF, MT = _kawin()
+        NU = _nucleation_module()
+        self.kind = kind
+        if kind == 'bare':
+            self.p = None
+            self.n = NU.NucleationBarrierParameters(SITES[site], gamma, gb)
+        else:
+            if 'prec-template' not in _MODELS:
+                t = PP.PrecipitateParameters('P')
+                t.volume.Vm = 1e-5
+                _MODELS['prec-template'] = t
+                m = PP.MatrixParameters(['B']); m.volume.setVolume(1e-5, 'VM', 4); m.initComposition = 4e-3
+                _MODELS['matrix-template'] = m
+            import copy
+            self.p = copy.deepcopy(_MODELS['prec-template'])          # a pristine object: nothing was ever evaluated on the template
+            self.p.gamma = gamma
+            self.p.nucleation.gbEnergy = gb
+            self.p.nucleation.setNucleationType(SITES[site])
+            self.n = self.p.nucleation
+
+    def apply(self, op):
+        """returns ('ok', value) / ('ValueError', None)"""
+        NR, PP, KE, SF, MT = _kawin()
+        name = op[0]
+        try:
+            if name == 'gbEnergy':
+                self.n.gbEnergy = op[1]; return ('ok', None)
+            if name == 'gamma':
+                if self.p is not None:
+                    self.p.gamma = op[1]
+                else:
+                    self.n.gamma = op[1]
+                return ('ok', None)
+            if name == 'site':
+                self.n.setNucleationType(SITES[op[1]]); return ('ok', None)
+            if name == 'shape':
+                self.p.shapeFactor.setSpherical(); return ('ok', None)
+            if name.startswith('get:'):
+                return ('ok', float(getattr(self.n, FACTOR_GETTERS[name[4:]])))
+            if name == 'rcrit':
+                return ('ok', float(self.n.Rcrit(op[1])))
+            if name == 'gcrit':
+                return ('ok', float(self.n.Gcrit(op[1], 1e-9)))
+            if name == 'barrier':
+                Rc, Gc = NR.nucleationBarrier(op[1], self.p, 1)
+                return ('ok', [float(Rc), float(Gc)])
+            if name == 'steady':
+                NS = types.SimpleNamespace
+                Vm = float(self.p.volume.Vm)
+                therm = NS(numElements=2, getDrivingForce=lambda x, T, precPhase=None, removeCache=False, _d=op[1] * Vm: (np.array([_d]), np.array([0.25])))
+                bf = lambda therm, x, T, Rcrit, matrix, prec, removeCache=False: np.atleast_1d(1e3 * np.asarray(Rcrit, dtype=float) ** 2 / 1e-18)
+                nd = NR.computeSteadyStateNucleation(therm, 4e-3, 700.0, self.p, _MODELS['matrix-template'], betaFunc=bf)
+                return ('ok', [float(nd.Rcrit), float(nd.Gcrit), float(nd.Z), float(nd.nucleation_rate)])
+        except ValueError:
+            return ('ValueError', None)
+        raise KeyError(name)
+
+
+FINAL_EVALS = [('get:k',), ('get:area',), ('get:vol',), ('get:rem',), ('get:arem',), ('rcrit', 3e8), ('gcrit', 3e8)]
+
+
+def _same(a, b):
+    if a[0] != b[0]:
+        return False
+    if a[1] is None or b[1] is None:
+        return a[1] is None and b[1] is None
+    va, vb = np.atleast_1d(a[1]), np.atleast_1d(b[1])
+    return len(va) == len(vb) and all(close(p_, q_, 1e-12, 1e-300) or (p_ == q_) for p_, q_ in zip(va, vb))
+
+
+def history_model_ops(h):
+    """the operations of a history as the model sees them (a PrecipitateParameters setter of the site or the shape re-assigns
+    gamma through validate(); Rcrit/Gcrit read areaFactor, gbRemoval, volumeFactor in this order; nucleationBarrier reads
+    them only on grain-boundary type sites; zeldovich reads volumeFactor)"""
+    toks, owner = [], []
+    gamma, site = h['gamma'], h['site']
+    for i, op in enumerate(h['ops']):
+        name = op[0]
+        if name == 'gbEnergy':
+            seq = ['B ' + f2b(op[1])]
+        elif name == 'gamma':
+            gamma = op[1]; seq = ['G ' + f2b(op[1])]
+        elif name == 'site':
+            site = op[1]; seq = ['S %d' % op[1]] + (['G ' + f2b(gamma)] if h['kind'] == 'prec' else [])
+        elif name == 'shape':
+            seq = ['G ' + f2b(gamma)]
+        elif name.startswith('get:'):
+            seq = [FAC_TOK[name[4:]]]
+        elif name in ('rcrit', 'gcrit'):
+            seq = ['A', 'R', 'V']
+        elif name == 'barrier':
+            seq = ['A', 'R', 'V', 'A', 'R', 'V'] if site >= 2 else []
+        else:
+            seq = (['A', 'R', 'V', 'A', 'R', 'V'] if site >= 2 else []) + ['V']
+        toks += seq; owner += [i] * len(seq)
+    return toks, owner
+
+
+def check_history(ctx, res, h, model_line_answer=None):
+    descs = _site_descriptions()
+    case = dict(nuc_history=True, kind=h['kind'], gamma=h['gamma'], gb=h['gb'], site=h['site'], ops=[list(o) for o in h['ops']])
+    obj = _HistoryObject(h['kind'], h['gamma'], h['gb'], h['site'])
+    cur = dict(gamma=h['gamma'], gb=h['gb'], site=h['site'])
+    answers = []
+    for op in h['ops']:
+        answers.append(obj.apply(op))
+        if op[0] == 'gbEnergy':
+            cur['gb'] = op[1]
+        elif op[0] == 'gamma':
+            cur['gamma'] = op[1]
+        elif op[0] == 'site':
+            cur['site'] = op[1]
+    nset = sum(1 for o in h['ops'] if o[0] in ('gbEnergy', 'gamma', 'site', 'shape'))
+    res.case(('nuc-history', h['kind'], h['gamma'], h['gb'], h['site'], repr(h['ops'])), nset > 0 and nset < len(h['ops']))
+    res.count('nuc-history:%s:final-site:%s' % (h['kind'], SITES[cur['site']].replace(' ', '-')))
+    finals = list(FINAL_EVALS) + ([('barrier', 3e8), ('steady', 3e8)] if h['kind'] == 'prec' else [])
+    got = [obj.apply(op) for op in finals]
+    fresh = _HistoryObject(h['kind'], cur['gamma'], cur['gb'], cur['site'])
+    want = [fresh.apply(op) for op in finals]
+    if any(a[0] == 'ValueError' for a in want):
+        res.count('nuc-history:final-ratio-beyond-limit(ValueError)')
+    # ---- model: every answered factor was computed by the description of site s at ratio k named by the model
+    if model_line_answer is not None:
+        t = Toks(model_line_answer)
+        toks, owner = history_model_ops(h)
+        if not t.ok:
+            res.disagree('nuc.hist model error', case, 'ok', t.err)
+        else:
+            outs = []
+            for _ in toks:
+                w = t.tok()
+                outs.append(('-',) if w == '-' else ('E',) if w == 'E' else ('k', t.flt()) if w == 'k' else ('f', t.nat(), t.flt()))
+            for i, (op, ans) in enumerate(zip(h['ops'], answers)):
+                mine = [(tk, o) for tk, o, ow in zip(toks, outs, owner) if ow == i and tk[0] in 'AVRMK']
+                if not mine:
+                    continue
+                if any(o[0] == 'E' for _, o in mine):
+                    first_err = next(j for j, (_, o) in enumerate(mine) if o[0] == 'E')
+                    # the implementation stops at the first ValueError of a composite evaluation
+                    if ans[0] != 'ValueError' and op[0] not in ('barrier', 'steady'):
+                        res.disagree('nuc.hist model (ValueError) vs the implementation', dict(case, op_index=i), ans, 'ValueError')
+                    elif ans[0] != 'ValueError' and first_err == 0:
+                        res.disagree('nuc.hist model (ValueError) vs the implementation', dict(case, op_index=i), ans, 'ValueError')
+                    continue
+                if ans[0] == 'ValueError':
+                    res.disagree('nuc.hist model (answer) vs the implementation (ValueError)', dict(case, op_index=i), 'ValueError', mine); continue
+                val = {}
+                for tk, o in mine:
+                    if o[0] == 'k':
+                        val['k'] = o[1]
+                    else:
+                        fn = {'A': 'area', 'V': 'vol', 'R': 'rem', 'M': 'arem'}[tk]
+                        val[fn] = float(getattr(descs[o[1]], DESC_FN[fn])(o[2], setInvalidToNan=False))
+                name = op[0]
+                g_, b_ = None, None
+                # gamma / gbEnergy at the time of the evaluation
+                g_ = h['gamma']; b_ = h['gb']
+                for o2 in h['ops'][:i]:
+                    if o2[0] == 'gamma':
+                        g_ = o2[1]
+                    elif o2[0] == 'gbEnergy':
+                        b_ = o2[1]
+                if name.startswith('get:'):
+                    pred = val[name[4:]]
+                elif name == 'rcrit':
+                    pred = (2 * (val['area'] * g_ - val['rem'] * b_)) / (3 * val['vol'] * op[1])
+                elif name == 'gcrit':
+                    pred = 1e-9 ** 2 * ((val['area'] * g_ - val['rem'] * b_) - val['vol'] * op[1] * 1e-9)
+                else:
+                    continue                # barrier / steady: compared with the fresh object below (clamp, Zeldovich ... are C14's)
+                if not (close(pred, ans[1], 1e-12, 1e-300) or pred == ans[1]):
+                    res.disagree('nuc.hist model: the answer of %s is not the description evaluated at the (site, ratio) the model names' % name, dict(case, op_index=i, provenance=[(tk, o) for tk, o in mine]), ans[1], pred)
+    # ---- direct oracle: after the history the object answers like a FRESH object configured with the final values
+    bad = [i for i, (a, b) in enumerate(zip(got, want)) if not _same(a, b)]
+    if bad:
+        culprit = history_culprit(h)
+        i = bad[0]
+        res.violate('nucleation-factors-stale-after:' + culprit,
+                    'after a history of setters and evaluations on ONE parameter object %s differs from a fresh object configured with the final values (gamma, grain boundary energy, site)' % (finals[i][0]),
+                    dict(case, final=cur, evaluation=list(finals[i]), all_evaluations=[f[0] for f in finals], differing=[finals[j][0] for j in bad]), got[i], want[i])
+
+
+def history_culprit(h):
+    """the first setter of the history after which a COPY of the object no longer answers like a fresh object"""
+    import copy
+    obj = _HistoryObject(h['kind'], h['gamma'], h['gb'], h['site'])
+    cur = dict(gamma=h['gamma'], gb=h['gb'], site=h['site'])
+    for op in h['ops']:
+        obj.apply(op)
+        if op[0] in ('gbEnergy', 'gamma', 'site', 'shape'):
+            if op[0] == 'gbEnergy':
+                cur['gb'] = op[1]
+            elif op[0] == 'gamma':
+                cur['gamma'] = op[1]
+            elif op[0] == 'site':
+                cur['site'] = op[1]
+            probe = copy.deepcopy(obj)
+            fresh = _HistoryObject(h['kind'], cur['gamma'], cur['gb'], cur['site'])
+            if any(not _same(probe.apply(e), fresh.apply(e)) for e in FINAL_EVALS):
+                return {'gbEnergy': 'gbEnergy', 'gamma': 'gamma', 'site': 'site-type', 'shape': 'shape'}[op[0]]
+    return 'unknown'
+
+
+def part_nuc_history(ctx, res, N, use_driver=True, cases=None):
+    if cases is None:
+        cases = [gen_history(ctx.rng, 'prec' if ctx.rng.random() < 0.5 else 'bare') for _ in range(N)]
+    descs = _site_descriptions()
+    maxr = [float(d.maxRatio) for d in descs]
+    model = None
+    if use_driver and ctx.driver_ok and cases:
+        lines = []
+        for h in cases:
+            toks, _ = history_model_ops(h)
+            lines.append('nuc.hist %s %s %s %d %d %s' % (enc_list(maxr), f2b(h['gamma']), f2b(h['gb']), h['site'], len(toks), ' '.join(toks)))
+        model = vlib.run_driver(PROP, lines)
+    for k, h in enumerate(cases):
+        check_history(ctx, res, h, model[k] if model is not None else None)
+
+
+def part_nuc_sweep(ctx, res):
+    """sweep of the grain boundary energy on ONE PrecipitateParameters object with computeSteadyStateNucleation on the real
+    Al-Zr thermodynamics: the reported critical radius is where growth changes sign - the interfacial composition of a
+    particle 3 % larger than Rcrit lies below the matrix composition, that of a particle 3 % smaller above it"""
+    import kwnruns
+    NR, PP, KE, SF, MT = _kawin()
+    th = kwnruns.therm_binary()
+    r = ctx.rng
+    T, x0, gamma = r.uniform(690, 760), r.uniform(3e-3, 5e-3), r.uniform(0.1, 0.13)
+    site = r.choice(['grain boundaries', 'grain edges', 'grain corners'])
+    lim = {'grain boundaries': 1.0, 'grain edges': math.sqrt(3) / 2, 'grain corners': math.sqrt(2 / 3)}[site]
+    check_nuc_sweep(ctx, res, dict(nuc_sweep=True, T=T, x0=x0, gamma=gamma, site=site, gbs=[2 * gamma * lim * r.uniform(0.05, 0.95) for _ in range(ctx.n(3, 8))]))
+
+
+def check_nuc_sweep(ctx, res, c):
+    import kwnruns
+    NR, PP, KE, SF, MT = _kawin()
+    th = kwnruns.therm_binary()
+    m = PP.MatrixParameters(['ZR']); m.volume.setVolume(1e-5, 'VM', 4); m.initComposition = c['x0']
+    p = PP.PrecipitateParameters('AL3ZR'); p.gamma = c['gamma']; p.volume.setVolume(1e-5, 'VM', 4)
+    p.nucleation.setNucleationType(c['site'])
+    for j, gb in enumerate(c['gbs']):
+        m.GBenergy = gb
+        p.nucleation.gbEnergy = gb
+        with warnings.catch_warnings():
+            warnings.simplefilter('ignore')
+            with np.errstate(all='ignore'):
+                nd = NR.computeSteadyStateNucleation(th, c['x0'], c['T'], p, m)
+        Rc = float(nd.Rcrit)
+        res.case(('nuc-sweep', c['site'], c['T'], c['x0'], gb), j > 0)
+        res.count('nuc-sweep:' + c['site'].replace(' ', '-'))
+        if not Rc > p.Rmin * (1 + 1e-9):
+            res.count('nuc-sweep:clamped-or-no-driving-force'); continue
+        xl, _ = th.getInterfacialComposition(c['T'], float(p.computeGibbsThomsonContribution(1.03 * Rc)))
+        xs, _ = th.getInterfacialComposition(c['T'], float(p.computeGibbsThomsonContribution(0.97 * Rc)))
+        if not (float(xl) < c['x0'] < float(xs)):
+            res.violate('nucleation-sweep-rcrit-not-where-growth-changes-sign:%s:%s' % (c['site'].replace(' ', '-'), 'first-value' if j == 0 else 'after-gbEnergy-change'),
+                        'computeSteadyStateNucleation on one parameter object in a sweep over the grain boundary energy: the interfacial compositions of particles 3 % larger / smaller than the reported critical radius do not bracket the matrix composition',
+                        dict(c, sweep_index=j, gbEnergy=gb, Rcrit=Rc), [float(xl), float(xs)], 'x_alpha(1.03 Rcrit) < %r < x_alpha(0.97 Rcrit)' % c['x0'])
 
 
 # =====================================================================================================
@@ -1561,11 +2162,16 @@ def make_observer(res, tag, desc, stats):
                             dict(desc, step=int(n), time_at_step=float(m.pData.time[n]), phase=str(m.phases[p]), Rcrit=Rc, drivingForce=dG, R=float(b[i]), class_index=i,
                                  RdrivingForceIndex=rdf, first_unfilled_R=float(b[rdf + 1])), float(g[i]), 'growth < 0')
                 bb = [i for i in bb if i not in sink]
+            gt = np.asarray(pp.computeGibbsThomsonContribution(b), dtype=float)
+            if np.any(gt < 0):
+                stats['states-with-negative-g-classes'] += 1
             if ba or bb:
                 i = (ba or bb)[0]
-                res.violate('run-%s-class-%s' % (tag, 'above-Rcrit-shrinks' if ba else 'below-Rcrit-grows'),
+                stg = stats.get('stage', 1)
+                res.violate('run-%s-class-%s' % (tag + (':stage-%d' % stg if stg > 1 else ''), 'above-Rcrit-shrinks' if ba else 'below-Rcrit-grows') + (':negative-g' if gt[i] < 0 else ''),
                             'at an observer callback of a real run a size class %s pData.Rcrit %s' % (('larger than', 'does not grow') if ba else ('smaller than', 'does not shrink')),
                             dict(desc, step=int(n), time_at_step=float(m.pData.time[n]), phase=str(m.phases[p]), Rcrit=Rc, drivingForce=dG, R=float(b[i]), class_index=i,
+                                 gibbs_thomson_energy_of_class=float(gt[i]), stage=stg,
                                  RdrivingForceIndex=int(m.RdrivingForceIndex[p])), float(g[i]), 'growth %s 0' % ('>' if ba else '<'))
     return obs
 
@@ -1576,7 +2182,7 @@ def run_case(ctx, res, cfg):
     stats = Counter()
     vb = cfg.get('vbeta_over_valpha', 1.0)            # precipitate / matrix molar volume
     if cfg['kind'] == 'binary':
-        m = kwnruns.build_binary(x0=cfg['x0'], T=cfg['T'], gamma=cfg['gamma'], site=cfg.get('site', 'dislocations'), vratio=1.0 / vb, **cfg.get('pbm', {}))
+        m = kwnruns.build_binary(x0=cfg['x0'], T=cfg['T'], gamma=cfg['gamma'], site=cfg.get('site', 'dislocations'), vratio=1.0 / vb, gbEnergy=cfg.get('gbEnergy'), **cfg.get('pbm', {}))
     else:
         m = kwnruns.build_ternary(x0=cfg['x0'], T=cfg['T'], gamma=cfg['gamma'])
         if vb != 1.0:
@@ -1602,18 +2208,49 @@ def run_case(ctx, res, cfg):
         pp.shapeFactor.setPrecipitateShape(cfg['shape'], cfg['ar'])
     if cfg.get('E'):
         pp.strainEnergy.setConstantElasticEnergy(cfg['E'])
+    tag = (cfg['kind'] + ((':E>0' if cfg['E'] > 0 else ':E<0') if cfg.get('E') else '') + (':Vb!=Va' if vb != 1.0 else '') + (':small-grid' if cfg.get('load') else '')
+           + (':' + cfg['shape'] if cfg.get('shape') else '') + (':' + cfg['site'].replace(' ', '-') if cfg.get('site', 'dislocations') not in ('dislocations', 'bulk') else '')
+           + (':T-%s-%s' % (cfg['schedule'][0], 'down' if cfg['schedule'][2] < cfg['schedule'][1] else 'up') if cfg.get('schedule') else ''))
     with warnings.catch_warnings():
         warnings.simplefilter('ignore')
         with np.errstate(all='ignore'):
-            steps = kwnruns.run(m, cfg['time'], solver=cfg.get('solver', 'euler'), max_steps=cfg['steps'], observer=make_observer(res, cfg['kind'] + (':E>0' if cfg.get('E') else '') + (':Vb!=Va' if vb != 1.0 else '') + (':small-grid' if cfg.get('pbm') else '')
-                                                                                 + (':' + cfg['shape'] if cfg.get('shape') else '')
-                                                                                 + (':T-%s-%s' % (cfg['schedule'][0], 'down' if cfg['schedule'][2] < cfg['schedule'][1] else 'up') if cfg.get('schedule') else ''), cfg, stats))
+            steps = kwnruns.run(m, cfg['time'], solver=cfg.get('solver', 'euler'), max_steps=cfg['steps'], observer=make_observer(res, tag, cfg, stats))
+            if cfg.get('stage2'):
+                # PARAMETER HISTORY inside one simulation: the grain boundary energy is changed on the model AND on the precipitate's
+                # nucleation barrier (whose factors were evaluated at every step of stage 1) and the SAME simulation is continued
+                s2 = cfg['stage2']
+                stats['stage-1-states'] = stats['states']
+                m.setGrainBoundaryEnergy(s2['gbEnergy'])
+                for ppar in m.precipitateParameters:
+                    ppar.nucleation.gbEnergy = s2['gbEnergy']
+                m.clearCouplingModels(); m._verif_obs = False
+                stats['stage'] = 2
+                steps += kwnruns.run(m, s2['time'], solver=cfg.get('solver', 'euler'), max_steps=s2['steps'], observer=make_observer(res, tag, cfg, stats))
+                stats['stage-2-states'] = stats['states'] - stats['stage-1-states']
+                del stats['stage']
     res.traces += 1
     res.case(('run', repr(sorted(cfg.items()))), stats['states'] > 0)
     for k, v in stats.items():
         res.count('run:%s:%s' % (cfg['kind'], k), v)
     res.count('run:%s:steps' % cfg['kind'], steps)
     return stats
+
+
+def undersaturated_negative_strain_cfg(ctx, steps):
+    """binary Al-Zr run whose matrix is under-saturated with respect to the planar solvus (chemical driving force < 0) and
+    whose precipitate carries a negative constant elastic energy large enough to make the volumetric driving force positive
+    with the critical radius inside the size grid"""
+    import kwnruns
+    r = ctx.rng
+    th = kwnruns.therm_binary()
+    T = r.uniform(690, 760)
+    xeq = float(th.getInterfacialComposition(T, 0.0)[0])
+    x0 = xeq * r.uniform(0.8, 0.93)
+    chem = df(th, 'tangent', x0, T)                         # < 0
+    Vm = 6.02214076e23 * (0.405e-9) ** 3 / 4                 # kwnruns.build_binary
+    E = (chem - r.uniform(150, 400)) / Vm                   # volumetric driving force (150..400 J/mol) / Vm > 0
+    return dict(kind='binary', x0=x0, T=T, gamma=0.1, time=3600, steps=steps, E=E, x0_over_solvus=x0 / xeq, chemical_driving_force=chem,
+                pbm=dict(cMin=5e-10, cMax=3e-8))
 
 
 def part_runs(ctx, res):
@@ -1642,7 +2279,20 @@ def part_runs(ctx, res):
     cfgs.append(dict(kind='binary', x0=2e-3, T=Tlo, gamma=0.15, time=0.4, steps=ctx.n(60, 200), schedule=('step', Tlo, Thi, 0.2)))
     cfgs.append(dict(kind='binary', x0=2e-3, T=Thi, gamma=0.15, time=40.0, steps=ctx.n(9, 40), schedule=('ramp', Thi, Thi - r.uniform(30, 50), 30.0)))
     cfgs.append(dict(kind='binary', x0=2e-3, T=Tlo, gamma=0.15, time=40.0, steps=ctx.n(9, 40), schedule=('ramp', Tlo, Tlo + r.uniform(30, 50), 30.0)))
+    # NEGATIVE constant elastic energy (the precipitate relaxes a pre-strained matrix: documented in volumetricDrivingForce):
+    # g = Vm (E + 2 f gamma / R) < 0 for the large classes.  (a) supersaturated matrix, (b) a matrix that is UNDER-saturated
+    # with respect to the planar solvus and made supersaturated by the negative strain energy (chemical driving force < 0,
+    # volumetric driving force > 0, Rcrit inside the grid, every class above Rcrit has g < chemical dG < 0), (c) multicomponent
+    cfgs.append(dict(kind='binary', x0=r.uniform(3e-3, 5e-3), T=723.15, gamma=0.1, time=3600, steps=ctx.n(20, 200), E=-10 ** r.uniform(7.3, 7.8)))
+    cfgs.append(undersaturated_negative_strain_cfg(ctx, steps=ctx.n(20, 200)))
+    cfgs.append(dict(kind='ternary', x0=(0.098, 0.083), T=1073.0, gamma=0.023, time=1e4, steps=ctx.n(10, 80), E=-10 ** r.uniform(6.3, 7.0)))
+    # PARAMETER HISTORY: grain-boundary / edge / corner nucleation, grain boundary energy changed between two solve calls
+    g0 = r.uniform(0.1, 0.13)
+    cfgs.append(dict(kind='binary', x0=4e-3, T=723.15, gamma=g0, time=2e3, steps=ctx.n(25, 150), site=r.choice(['grain boundaries', 'grain boundaries', 'grain edges', 'grain corners']),
+                     gbEnergy=r.uniform(1.2, 1.5) * g0, stage2=dict(gbEnergy=r.uniform(0.4, 0.9) * g0, time=8e3, steps=ctx.n(25, 150))))
     if ctx.thorough:
+        cfgs.append(undersaturated_negative_strain_cfg(ctx, steps=300))
+        cfgs.append(dict(kind='binary', x0=4e-3, T=723.15, gamma=0.12, time=2e3, steps=300, site='grain corners', gbEnergy=0.15, stage2=dict(gbEnergy=0.05, time=8e3, steps=300)))
         for _ in range(3):
             cfgs.append(dict(kind='binary', x0=10 ** r.uniform(-2.7, -2.2), T=r.uniform(650, 760), gamma=r.uniform(0.07, 0.14), time=3600 * 3, steps=600,
                              site=r.choice(['dislocations', 'bulk']), vbeta_over_valpha=r.choice([1.0, r.uniform(0.85, 1.2)])))
@@ -1684,12 +2334,16 @@ def corr(ctx):
         # lists the solvent first): the composition index in the equilibrium records is reversed (BinaryThermodynamics.reverse)
         th = therm_nial()
         res.count('thermo:Ni-Al:reverse=%s' % bool(th.reverse))
-        part_thermo(ctx, res, th, 'Ni-Al', 'FCC_L12', [ctx.rng.uniform(900, 1200) for _ in range(ctx.n(4, 20))], stoich=False, xmax=0.2, gmax_range=(800, 1500))
+        part_thermo(ctx, res, th, 'Ni-Al', 'FCC_L12', [ctx.rng.uniform(900, 1200) for _ in range(ctx.n(4, 20))], stoich=False, xmax=0.2, gmax_range=(800, 1500), gneg_max=600.0)
     _guard(errors, res, 'thermo-NiAl', thermo_nial)
     _guard(errors, res, 'extra-gibbs-model', lambda: part_extra_model(ctx, res))
     _guard(errors, res, 'thermo-second-database', lambda: part_second_database(ctx, res))
     _guard(errors, res, 'dispatch', lambda: part_dispatch(ctx, res, ctx.n(1500, 20000)))
     _guard(errors, res, 'array-forms', lambda: part_array_forms(ctx, res))
+    _guard(errors, res, 'df-solute-order', lambda: part_df_order(ctx, res, ctx.n(150, 4000)))
+    _guard(errors, res, 'multicomponent-orders', lambda: part_multi(ctx, res))
+    _guard(errors, res, 'nucleation-histories', lambda: part_nuc_history(ctx, res, ctx.n(300, 8000)))
+    _guard(errors, res, 'nucleation-sweep', lambda: part_nuc_sweep(ctx, res))
     if ctx.thorough:
         def cuti():
             cu = therm_cuti()
@@ -1713,6 +2367,12 @@ def part_second_database(ctx, res):
     part_crossdb(ctx, res, [ctx.rng.uniform(580, 880) for _ in range(ctx.n(3, 20))])
 
 
+def part_multi(ctx, res):
+    """both listings of the solutes, both sides of the phase boundary, all four methods: Ni-Cr-Al and Al-Mg-Si"""
+    part_multi_orders(ctx, res, 'Ni-Cr-Al', ctx.n(2, 12), ctx.n(1, 8), ctx.n(1, 8))
+    part_multi_orders(ctx, res, 'Al-Mg-Si', ctx.n(2, 8), ctx.n(1, 6), ctx.n(1, 6))
+
+
 def part_array_forms(ctx, res):
     # always present: a thermal cycle and a first==last array whose g values reach beyond the stability limit of the
     # precipitate (sentinel handling of the array forms), and a cycle with a scalar g
@@ -1721,7 +2381,11 @@ def part_array_forms(ctx, res):
     g1, g2 = r.uniform(0, 9000), r.uniform(0, 9000)
     forced = [('cycle', np.array([a, b, a]), [a, b, a], 'array', np.array([g1, 60000.0, g2]), [g1, 60000.0, g2]),
               ('first-last', np.array([b, a, c, b]), [b, a, c, b], 'array', np.array([60000.0, g1, g2, 0.0]), [60000.0, g1, g2, 0.0]),
-              ('cycle', np.array([b, a, b]), [b, a, b], 'scalar', g1, [g1])]
+              ('cycle', np.array([b, a, b]), [b, a, b], 'scalar', g1, [g1]),
+              # negative Gibbs-Thomson energies through the array forms: a ramp with g changing sign, and a scalar T
+              ('ramp-up', np.array([a, c, b]), [a, c, b], 'array', np.array([-r.uniform(500, 3000), g1, -r.uniform(10, 500)]), None),
+              ('scalar', float(c), [c], 'span-negative', np.array([-2000.0, -300.0, 0.0, 300.0, g2]), [-2000.0, -300.0, 0.0, 300.0, g2])]
+    forced = [f[:5] + ([float(v) for v in np.atleast_1d(f[4])],) for f in forced]
     part_batch_real(ctx, res, 'Al-Zr', 0, cases=forced)
     part_batch_real(ctx, res, 'Al-Zr', ctx.n(12, 120))
     part_batch_real(ctx, res, ALSCZR, ctx.n(4, 40))
@@ -1776,11 +2440,16 @@ def therm_cuti():
     return _CUTI[0]
 
 
+def kwnruns_therm():
+    import kwnruns
+    return kwnruns.therm_binary()
+
+
 def search(ctx, broken):
     """something no longer checks: direct oracle alone on a larger sample of the algebraic clauses (real functions),
     with strain energy and non-spherical shapes over-represented, plus the run observers"""
     res = Result()
-    res.rule = 'search: oracle-only formula cases on the real functions, ExtraGibbsModel probe, array-form dispatch on the pattern backend, both Al-Zr databases, array forms on the real thermodynamics, run observers'
+    res.rule = 'search: oracle-only formula cases on the real functions, ExtraGibbsModel probe, array-form dispatch on the pattern backend, both Al-Zr databases and Ni-Al with negative to positive Gibbs-Thomson energies, array forms on the real thermodynamics, solute order of the curvature method on a stand-in object, Ni-Cr-Al / Al-Mg-Si in both solute orders, parameter histories of the nucleation barrier against fresh objects, grain-boundary-energy sweep, run observers (incl. negative strain energy and two-stage runs)'
     cases = []
     for _ in range(ctx.n(1500, 12000)):
         c = gen_formula_case(ctx.rng)
@@ -1794,6 +2463,13 @@ def search(ctx, broken):
     _guard(errors, res, 'search-dispatch', lambda: part_dispatch(ctx, res, ctx.n(4000, 40000), use_driver=False))
     _guard(errors, res, 'search-second-database', lambda: part_second_database(ctx, res))
     _guard(errors, res, 'search-array-forms', lambda: part_array_forms(ctx, res))
+    # round 5: negative Gibbs-Thomson energies on every binary system, solute orders, parameter histories (oracle-only)
+    _guard(errors, res, 'search-thermo-negative-g', lambda: part_thermo(ctx, res, kwnruns_therm(), 'Al-Zr', 'AL3ZR', [ctx.rng.uniform(580, 880) for _ in range(ctx.n(6, 30))]))
+    _guard(errors, res, 'search-thermo-NiAl', lambda: part_thermo(ctx, res, therm_nial(), 'Ni-Al', 'FCC_L12', [ctx.rng.uniform(900, 1200) for _ in range(ctx.n(3, 15))], stoich=False, xmax=0.2, gmax_range=(800, 1500), gneg_max=600.0))
+    _guard(errors, res, 'search-df-solute-order', lambda: part_df_order(ctx, res, ctx.n(600, 8000), use_driver=False))
+    _guard(errors, res, 'search-multicomponent-orders', lambda: part_multi(ctx, res))
+    _guard(errors, res, 'search-nucleation-histories', lambda: part_nuc_history(ctx, res, ctx.n(1500, 20000), use_driver=False))
+    _guard(errors, res, 'search-nucleation-sweep', lambda: part_nuc_sweep(ctx, res))
     if not _new_violations(res):
         _guard(errors, res, 'search-runs', lambda: part_runs(ctx, res))
     return res
@@ -1807,10 +2483,21 @@ def replay(ctx, entry):
     if all(k in c for k in keys):
         check_formula_cases(ctx, res, [{k: c[k] for k in keys}], use_driver=False)
     elif 'kind' in c and 'steps' in c:
-        cfg = {k: c[k] for k in ('kind', 'x0', 'T', 'gamma', 'time', 'steps', 'site', 'shape', 'ar', 'E', 'vbeta_over_valpha', 'schedule') if k in c}
+        cfg = {k: c[k] for k in ('kind', 'x0', 'T', 'gamma', 'time', 'steps', 'site', 'shape', 'ar', 'E', 'vbeta_over_valpha', 'schedule', 'pbm', 'load', 'solver', 'gbEnergy', 'stage2') if k in c}
+        for k in ('schedule', 'load'):
+            if isinstance(cfg.get(k), list):
+                cfg[k] = tuple(cfg[k])
         if isinstance(cfg['x0'], list):
             cfg['x0'] = tuple(cfg['x0'])
         run_case(ctx, res, cfg)
+    elif c.get('multi'):
+        multi_point(ctx, res, c['system'], c['T'], c['composition'])
+    elif c.get('df_order'):
+        part_df_order(ctx, res, 0, use_driver=False, cases=[(list(c['elements']), [float(v) for v in c['x']], bool(c['two_phase']))])
+    elif c.get('nuc_history'):
+        part_nuc_history(ctx, res, 0, use_driver=False, cases=[dict(kind=c['kind'], gamma=c['gamma'], gb=c['gb'], site=c['site'], ops=[tuple(o) for o in c['ops']])])
+    elif c.get('nuc_sweep'):
+        check_nuc_sweep(ctx, res, {k: c[k] for k in ('nuc_sweep', 'T', 'x0', 'gamma', 'site', 'gbs')})
     elif c.get('dispatch'):
         replay_dispatch(ctx, res, c)
     elif c.get('batch'):
@@ -1821,7 +2508,8 @@ def replay(ctx, entry):
         part_crossdb(ctx, res, [c['T']])
     elif 'system' in c and 'T' in c:
         th, prec, stoich, sfx = _system(c['system'])
-        part_thermo(ctx, res, th, c['system'], prec, [c['T']], stoich=stoich, sfx=sfx)
+        kw = dict(xmax=0.2, gmax_range=(800, 1500), gneg_max=600.0) if c['system'] == 'Ni-Al' else {}
+        part_thermo(ctx, res, th, c['system'], prec, [c['T']], stoich=stoich, sfx=sfx, g_given=c.get('g_grid'), **kw)
     else:
         return None
     for w in res.violations:
